@@ -91,10 +91,10 @@ func c08Run(r *engine.Run) int {
 	return r.Vacuity(2, 50)
 }
 
-func c08Worker(raw json.RawMessage) *engine.Result {
+func c08Worker(raw json.RawMessage) (res *engine.Result) {
 	var c c08Case
 	must(json.Unmarshal(raw, &c))
-	res := &engine.Result{Execs: 1}
+	res = &engine.Result{Execs: 1}
 	v := c08Values(c.Th)[c.I]
 	where := fmt.Sprintf("value=%s pos=%s epn=%d", v.Name, c.Pos, c.EPN)
 	vclass := v.Name
